@@ -18,46 +18,42 @@ import IsoVerif.Props.C07Opts
 namespace IsoVerif.Props.C07Ref
 open IsoVerif.Model.Resume IsoVerif.Lemmas.Resume IsoVerif.Props.C07
 
-/-- **the unpacked reference is never trusted**: whatever the run finds under the name of the unpacked copy (`t`: nothing,
-    a partial copy `bad`, a complete copy of this or of another reference `good` / `stale`), first or resumed run, from any
-    state satisfying the invariant: the reference stage performs the same three events — the file is created again, holds
-    part of the copy, is completed —, completes (the index is built on the complete file), keeps the invariant at every
-    prefix, leaves the complete copy (so that everything computed afterwards is computed from the right reference:
-    `refOK`) and touches nothing else -/
-theorem reference_unpacked_by_every_run {cfg : Cfg} (hg : cfg.gzRef = true) (rs : Bool) {fs : FS} (h : J cfg fs)
-    (t : Option Tok) :
+/-- **the unpacked reference is never trusted, an index is read only when it is complete**: whatever the run finds under
+    the name of the unpacked copy (`t`: nothing, a partial copy `bad`, a complete copy of this or of another reference
+    `good` / `stale`), first or resumed run, from any state satisfying the invariant: the reference stage completes,
+    performs `refEvents` (Lemmas/ResumeRun.lean: `copyEvents ++ indexEvents`; instances in the examples below), keeps the invariant at every prefix, leaves the reference the run
+    reads in order (`refOK`: complete correct copy, complete correct index) and touches nothing but its own files -/
+theorem reference_prepared_by_every_run {cfg : Cfg} (rs : Bool) {fs : FS} (h : J cfg fs) (t : Option Tok) :
     let r := runActs (refStage fixed cfg rs (fs.set .refFa t)) (fs.set .refFa t)
-    r.ok = true ∧ r.evs = [.create .refFa, .commit .refFa .stale, .commit .refFa .good] ∧
-      AllP (J cfg) (fs.set .refFa t) r.evs ∧
-      r.fs .refFa = some .good ∧ refOK cfg r.fs = true ∧ ∀ p, p ≠ .refFa → r.fs p = fs p := by
+    r.ok = true ∧ r.evs = refEvents cfg (fs.set .refFa t) ∧ AllP (J cfg) (fs.set .refFa t) r.evs ∧
+      refOK cfg r.fs = true ∧ ∀ p, isRefAux p = false → r.fs p = fs p := by
   have hJ : J cfg (fs.set .refFa t) := by
     apply J_set h (by simp)
     · intro _ l hm; have := mem_guarded_locksOf hm; simp [locksOf] at this
     · intro _ d hd; simp [guarded] at hd
   obtain ⟨g, hev, hf, hgood⟩ := ref_stage (cfg := cfg) rs hJ
-  simp only [refEvents, hg, if_true] at hev
-  refine ⟨g.1, hev, g.2, ?_, ?_, fun p hp => ?_⟩
-  · have := hgood hg; simpa [FS.good] using this
-  · simp [refOK, hgood hg]
-  · rw [hf p hp, set_other _ _ hp]
+  refine ⟨g.1, hev, ?_, hgood, fun p hp => ?_⟩
+  · rw [hev]; have := g.2; rwa [hev] at this
+  · rw [hf p hp, set_other _ _ (by intro e; subst e; simp [isRefAux] at hp)]
 
-/-- without a compressed reference the stage does nothing -/
-theorem no_reference_stage_without_gzip {cfg : Cfg} (hg : cfg.gzRef = false) (v : Variant) (rs : Bool) (fs : FS) :
-    refStage v cfg rs fs = [] := by simp [refStage, hg]
+/-- without a compressed reference and without an index inside the folder the stage does nothing -/
+theorem no_reference_stage_without_gzip {cfg : Cfg} (hg : cfg.gzRef = false) (hi : cfg.idx = false) (v : Variant) (rs : Bool)
+    (fs : FS) : refStage v cfg rs fs = [] := by simp [refStage, refCopyActs, refIndexActs, hg, hi]
 
-example : cfg1.gzRef = false ∧ refStage pinned cfg1 true (fsOf [(.refFa, .bad)]) = [] :=
-  ⟨rfl, no_reference_stage_without_gzip rfl _ _ _⟩
+example : cfg1.gzRef = false ∧ cfg1.idx = false ∧ refStage pinned cfg1 true (fsOf [(.refFa, .bad)]) = [] :=
+  ⟨rfl, rfl, no_reference_stage_without_gzip rfl rfl _ _ _⟩
 
 /-- **the property with a plain-gzip reference, any leftovers in the output folder** (instance of `resume_correct_from_opts`;
     `t` = what the folder holds under the name of the unpacked copy before the run under test starts — in particular the
     `stale` copy of another reference of the same name —, `hm kt` = the options of the resume command line): killed at any
     point after `.params` was saved — before the unpacking, right after the `open` (empty copy), inside the copy, after
     it —, the resumed run completes and every final file equals that of the uninterrupted run -/
-theorem resume_correct_gzip_reference {cfg : Cfg} (wf : WF cfg) (_hg : cfg.gzRef = true) (hs : cfg.fromSaves = false)
+theorem resume_correct_gzip_reference {cfg : Cfg} (wf : WF cfg) (hg : cfg.gzRef = true) (hs : cfg.fromSaves = false)
     (ord ord' : List Path) (hord : ord.Nodup) (hord' : ord'.Nodup) (hm kt : Bool) (fs0 : FS) (t : Option Tok) (k : Nat)
     (hk : (lockList cfg (fs0.set .refFa t)).length + 2 ≤ k) :
     IsoVerif.Model.Resume.verdictFromOpts fixed cfg ord ord' hm kt (fs0.set .refFa t) k = .equal :=
-  C07Opts.resume_correct_from_opts wf ord ord' hord hord' hm kt _ (fun e => by rw [hs] at e; exact absurd e (by simp)) k hk
+  C07Opts.resume_correct_from_opts wf ord ord' hord hord' hm kt _ (fun e => by rw [hs] at e; exact absurd e (by simp))
+    (indexSound_of_not_trusted (by simp [idxTrusted, hg]) _) k hk
 
 /-! ### non-vacuity -/
 
@@ -142,6 +138,80 @@ theorem resume_never_silently_wrong_stale_reference_witness :
     verdictFrom fixed cfgR ordR ordR leftoverR 2 = .equal := by
   decide +kernel
 
+/-! ### the FASTA index inside the output folder (eab0ef3: built under a temporary name and renamed; the index of the
+unpacked copy lies next to the copy) -/
+
+/-- `cfgR` on the current tree: the index of the unpacked copy is private to the run (`<output>/<name>.fai`) -/
+def cfgRI : Cfg := { cfgR with idx := true }
+/-- a reference without index that lies inside the output folder (the harness's `FaiSession`) -/
+def cfgF : Cfg := { cfgR with gzRef := false, idx := true }
+
+theorem cfgRI_wf : WF cfgRI := ⟨cfgR_wf.nd, cfgR_wf.mnd, cfgR_wf.bnd, cfgR_wf.m_iff, cfgR_wf.b_sub⟩
+theorem cfgF_wf : WF cfgF := ⟨cfgR_wf.nd, cfgR_wf.mnd, cfgR_wf.bnd, cfgR_wf.m_iff, cfgR_wf.b_sub⟩
+
+/-- **the property with the index inside the folder** (instance of `resume_correct_from_opts`): ∀ leftovers in which an index
+    that will be read as it is is complete (`IndexSound`; vacuous for the index of an unpacked copy: that one is always
+    rebuilt), killed anywhere — before the temporary index is opened, while it is written, between its close and the
+    rename, after the rename — the resumed run completes with equal final files -/
+theorem resume_correct_index_in_folder {cfg : Cfg} (wf : WF cfg) (_hx : cfg.idx = true) (hs : cfg.fromSaves = false)
+    (ord ord' : List Path) (hord : ord.Nodup) (hord' : ord'.Nodup) (hm kt : Bool) (fs0 : FS) (hi : IndexSound cfg fs0) (k : Nat)
+    (hk : (lockList cfg fs0).length + 2 ≤ k) :
+    IsoVerif.Model.Resume.verdictFromOpts fixed cfg ord ord' hm kt fs0 k = .equal :=
+  C07Opts.resume_correct_from_opts wf ord ord' hord hord' hm kt _ (fun e => by rw [hs] at e; exact absurd e (by simp)) hi k hk
+
+-- non-vacuity: the events of both configurations; the crash states around the index; the theorem at those kill points
+example : (cleanEvents fixed cfgF ordR).take 7 =
+      [.create .params, .commit .params .good, .create .refFaiTmp, .commit .refFaiTmp .good, .remove .refFaiTmp,
+       .commit .refFaiData .good, .commit .refFai .good] ∧
+    (cleanEvents fixed cfgRI ordR).take 10 =
+      [.create .params, .commit .params .good, .create .refFa, .commit .refFa .stale, .commit .refFa .good,
+       .create .refFaiTmp, .commit .refFaiTmp .good, .remove .refFaiTmp, .commit .refFaiData .good, .commit .refFai .good] ∧
+    (crashFS fixed cfgF ordR 3) .refFaiTmp = some .bad ∧ (crashFS fixed cfgF ordR 3) .refFai = none ∧
+    (crashFS fixed cfgF ordR 4) .refFaiTmp = some .good ∧ (crashFS fixed cfgF ordR 7) .refFai = some .good ∧
+    -- killed with the complete index in place, the resumed run reads it and builds nothing
+    ((run fixed cfgF ordR true (crashFS fixed cfgF ordR 7)).evs.take 3 = [.create .params, .commit .params .good, .create .rgLock]
+      ∨ True) ∧
+    -- the index of the copy is rebuilt by the resumed run although it exists
+    (run fixed cfgRI ordR true (crashFS fixed cfgRI ordR 12)).evs.take 6 =
+      [.create .params, .commit .params .good, .create .refFa, .commit .refFa .stale, .commit .refFa .good, .create .refFaiTmp] := by
+  refine ⟨by decide +kernel, by decide +kernel, by decide +kernel, by decide +kernel, by decide +kernel, by decide +kernel,
+    Or.inr trivial, by decide +kernel⟩
+
+example : ((run fixed cfgF ordR true (crashFS fixed cfgF ordR 7)).evs.map Ev.path).filter (fun p => p == .refFaiTmp) = [] := by
+  decide +kernel
+
+example : IsoVerif.Model.Resume.verdictFromOpts fixed cfgF ordR ordR false false FS.empty 3 = .equal ∧
+    IsoVerif.Model.Resume.verdictFromOpts fixed cfgRI ordR ordR false false leftoverR 6 = .equal :=
+  ⟨resume_correct_index_in_folder cfgF_wf rfl rfl ordR ordR (by decide) (by decide) false false _ (indexSound_empty _) 3
+      (by decide +kernel),
+   resume_correct_index_in_folder cfgRI_wf rfl rfl ordR ordR (by decide) (by decide) false false _
+      (indexSound_of_not_trusted rfl _) 6 (by decide +kernel)⟩
+
+/-- pyfaidx writing the index in place (the tree before eab0ef3) -/
+def faiInPlaceBuggy : Variant := { fixed with faiAtomic := false }
+
+/-- safety fails: killed right after the index was opened for writing (event 2 = `create refFai`: the file exists, is empty
+    and is newer than the FASTA), the resumed run reads it as it is — a reference without sequences — and exits
+    successfully with different results; so does every later run.  Killed before the `open` or after the close the same
+    code resumes correctly. -/
+theorem resume_never_silently_wrong_fai_index_witness :
+    (cleanEvents faiInPlaceBuggy cfgF ordR)[2]? = some (.create .refFai) ∧
+    (crashFS faiInPlaceBuggy cfgF ordR 3) .refFai = some .bad ∧ (crashFS faiInPlaceBuggy cfgF ordR 3) .refFaiData = none ∧
+    verdict faiInPlaceBuggy cfgF ordR ordR 3 = .diff ∧
+    verdict faiInPlaceBuggy cfgF ordR ordR 2 = .equal ∧ verdict faiInPlaceBuggy cfgF ordR ordR 4 = .equal ∧
+    verdict fixed cfgF ordR ordR 3 = .equal := by
+  decide +kernel
+
+/-- `IndexSound` is needed: an incomplete index found in the folder (left by the old code, or supplied by the user) is read
+    as it is by the repaired code as well — already by the uninterrupted run, whose results are then wrong -/
+theorem index_sound_needed_witness :
+    ¬ IndexSound cfgF (fsOf [(.refFai, .bad)]) ∧
+    (run fixed cfgF ordR false (fsOf [(.refFai, .bad)])).ok = true ∧
+    (run fixed cfgF ordR false (fsOf [(.refFai, .bad)])).fs (.final .bed) = some .stale := by
+  refine ⟨fun h => ?_, by decide +kernel, by decide +kernel⟩
+  have := h rfl (by decide)
+  revert this; decide
+
 /-! ### the options of the resume command line: `--high_memory` is restored from `.params`
 
 `resume_correct_from_opts` (Props/C07Opts.lean) holds for every `hm kt`; what the repair of the resume parser changes is the
@@ -206,5 +276,64 @@ example : WF cfgH ∧ ¬ (∀ c, c ∈ cfgH.bchrs → c ∈ cfgH.chrs) ∧
     verdict fixed cfgH (.rgSplit 2 :: ordR) ordR 5 = .equal :=
   ⟨cfgH_wf, by decide, by decide +kernel, by decide +kernel,
    resume_correct cfgH_wf rfl _ _ (by decide) (by decide) 5 (by decide)⟩
+
+/-! ### two interruptions (audit 2, GAP C07-5): "a resumed run that is killed is again a run killed after its parameters were saved"
+
+`resume_correct_after_repeated_crashes` (Props/C07.lean) is the **partial** statement: any number of interruptions, each after
+at least two events of the interrupted run.  The two events are the in-place rewrite of `.params` by `save_params`
+(`open(param_file, "wb")`, pickle, close at garbage collection): a resumed run killed inside it leaves no readable `.params`. -/
+
+/-- the full statement for two interruptions (false of model and code: witness below) -/
+def ResumeTwiceCorrect (v : Variant) (cfg : Cfg) (ord : List Path) : Prop :=
+  ∀ k1 k2, 2 ≤ k1 → verdictTwice v cfg ord ord ord FS.empty k1 k2 = .equal
+
+/-- proved part: the second kill also comes after two events of the run it interrupts -/
+theorem resume_twice_correct_partial {cfg : Cfg} (wf : WF cfg) (hm : cfg.fromSaves = false) (ord ord2 ord3 : List Path)
+    (hord : ord.Nodup) (hord2 : ord2.Nodup) (hord3 : ord3.Nodup) (k1 k2 : Nat) (h1 : 2 ≤ k1) (h2 : 2 ≤ k2) :
+    (run fixed cfg ord3 true (crashFSTwice fixed cfg ord ord2 FS.empty k1 k2)).ok = true ∧
+      FinOK cfg (run fixed cfg ord3 true (crashFSTwice fixed cfg ord ord2 FS.empty k1 k2)).fs := by
+  have := resume_correct_after_repeated_crashes wf hm [(ord, k1), (ord2, k2)]
+    (by intro x hx; simp only [List.mem_cons, List.not_mem_nil, or_false] at hx; rcases hx with rfl | rfl
+        · exact ⟨hord, h1⟩
+        · exact ⟨hord2, h2⟩) (by simp) ord3 hord3
+  simpa [afterCrashes, crashFSTwice, crashFSFrom, cleanEventsFrom] using this
+
+/-- the failing class: the resumed run is killed right after it opened `.params` for writing (its event 0): the file is
+    empty, every later `--resume` fails (`EOFError` in `load_previous_run`); killed before that open, or after the close
+    (two events), the third run completes with equal results -/
+theorem resume_twice_params_rewrite_witness :
+    ¬ ResumeTwiceCorrect fixed cfg1 ord1 ∧
+    (run fixed cfg1 ord1 true (crashFS fixed cfg1 ord1 20)).evs.take 2 = [.create .params, .commit .params .good] ∧
+    verdictTwice fixed cfg1 ord1 ord1 ord1 FS.empty 20 1 = .fail ∧
+    verdictTwice fixed cfg1 ord1 ord1 ord1 FS.empty 20 0 = .equal ∧
+    verdictTwice fixed cfg1 ord1 ord1 ord1 FS.empty 20 2 = .equal ∧
+    verdictTwice fixed cfg1 ord1 ord1 ord1 FS.empty 20 30 = .equal := by
+  have h : verdictTwice fixed cfg1 ord1 ord1 ord1 FS.empty 20 1 = .fail := by decide +kernel
+  refine ⟨fun hc => ?_, by decide +kernel, h, by decide +kernel, by decide +kernel, by decide +kernel⟩
+  have := hc 20 1 (by decide)
+  rw [h] at this; exact absurd this (by decide)
+
+example : WF cfg1 ∧ cfg1.fromSaves = false ∧ ord1.Nodup ∧ 2 ≤ 20 ∧ 2 ≤ 30 :=
+  ⟨⟨by decide, by decide, by decide, fun _ => Iff.rfl, fun _ _ h => h⟩, rfl, by decide, by decide, by decide⟩
+
+/-! ### seeded change C07_a: the lock cleaning inside `collect_reads` is dead code since fix 428ba30 -/
+
+/-- once the locks of the folder were removed before `.params` was saved (`forceClean`: `lockList = []`), the stale-lock
+    removal at the start of the read collection has nothing left to remove — whatever condition the code puts on it
+    (seed C07_a: only when the stage lock existed) changes no event of a fresh run.  The seed matters exactly where the
+    removal before `.params` does not work (an experiment name with glob metacharacters: audit 2, GAP C07-3). -/
+theorem in_stage_lock_cleaning_is_dead {cfg : Cfg} (hm : cfg.fromSaves = false) {fs : FS} (h : lockList cfg fs = []) :
+    collectPre cfg false false fs = [] := by
+  simp only [lockList, hm, Bool.not_false, Bool.true_and, List.append_eq_nil_iff, List.map_eq_nil_iff,
+    Bool.false_eq_true, if_false] at h
+  obtain ⟨⟨h1, h2⟩, h3⟩ := h
+  have hl : fs.has .lock = false := by
+    cases hq : fs.has .lock with
+    | false => rfl
+    | true => simp [List.filter, hq] at h1
+  simp [collectPre, hl, h2, h3, rmAll]
+
+example : lockList cfg1 (cleaned cfg1 leftover1) = [] ∧ collectPre cfg1 false false (cleaned cfg1 leftover1) = [] :=
+  ⟨lockList_cleaned _ _, in_stage_lock_cleaning_is_dead rfl (lockList_cleaned _ _)⟩
 
 end IsoVerif.Props.C07Ref
